@@ -404,7 +404,14 @@ func runOp(h *handle, r *opReq) (res opRes) {
 		})
 	case "index_def":
 		lowLocked(func() error {
-			t, err := h.db.Index(r.Index)
+			var t *sdb.Index
+			var err error
+			if r.Index != "" {
+				t, err = h.db.Index(r.Index)
+			} else {
+				// the *Index of a WITHOUT ROWID table: its statement text is a CREATE TABLE
+				t, err = h.db.NonRowidTable(r.Table)
+			}
 			if err != nil {
 				return err
 			}
